@@ -152,7 +152,7 @@ def check_finish(ctx):
 def run(ctx):
   fs = common.scope_funcs(ctx, LIVE_MODULES)
   n_loops, n_live = live.check_live(ctx, fs, rule="LIVE")
-  ctx.floor("LIVE", "for-loops over a live view in the ISD filters and cue writers", n_live, 8)
+  ctx.floor("LIVE", "for-loops over a live view in the ISD filters and cue writers", n_live, 5)
   ctx.extra["for_loops_scanned"] = n_loops
   check_flatteners(ctx)
   check_seq_end(ctx)
